@@ -128,8 +128,9 @@ pub fn iterate_margins(cones: &[ConeSpec], s: &[f64], z: &[f64]) -> [f64; 4] {
         match c {
             ConeSpec::Zero(_) => {}
             ConeSpec::Nonneg(_) => {
-                out[0] = out[0].min(observer::margin(c, sv, false));
-                out[2] = out[2].min(observer::margin(c, zv, true));
+                // raw smallest entry: exact, no scaling that could itself underflow
+                out[0] = out[0].min(sv.iter().fold(f64::INFINITY, |a, x| a.min(*x)));
+                out[2] = out[2].min(zv.iter().fold(f64::INFINITY, |a, x| a.min(*x)));
             }
             _ => {
                 out[1] = out[1].min(observer::margin(c, sv, false));
